@@ -181,7 +181,9 @@ CHECKS = {
         "evaluation of short runs of 6 method families, both directions; prefix bit for bit, cause chaining, resume, reset). Calls with "
         "events are covered by the event-loop model DV.LoopEv (theorem event_call_keeps_what_was_recorded: for every behaviour of the "
         "integrator, the event functions - a raising one drops the step -, the callbacks and the nested call of a terminal event, the "
-        "samples and events recorded before the call stay in place), replayed bit for bit on fault-heavy operation sequences.",
+        "samples and events recorded before the call stay in place; dense_pieces_are_the_recorded_steps[_backward]: with dense output on, "
+        "the container holds exactly one piece per recorded step after every exit of the call), replayed bit for bit on fault-heavy "
+        "operation sequences incl. the dense-output knots.",
    note="Trusted: Lean kernel, standard axioms, harness. Outside the models: integrator-internal state after a fault, dense-output "
         "container (checked by the enumeration on the implementation only).",
    technique="Lean 4 proof (induction over the fault position) + crash-point enumeration + bit-exact replay",
